@@ -24,6 +24,7 @@
 #include "stun/utils.h"
 #include "stun/usages/ice.h"
 #include "stun/usages/bind.h"
+#include "stun/usages/turn.h"
 
 #define GUARD 64
 #define CANARY 0xC5
@@ -189,6 +190,24 @@ static int isnum (const char *s)
 {
   if (!*s) return 0;
   for (; *s; s++) if (*s < '0' || *s > '9') return 0;
+  return 1;
+}
+
+static int isint (const char *s)
+{
+  if (*s == '-') s++;
+  return isnum (s);
+}
+
+/* optional byte string argument: "null" -> NULL; kept alive for the session */
+static int opt_bytes (const char *w, uint8_t **p, size_t *n)
+{
+  uint8_t *d; long l;
+  *p = NULL; *n = 0;
+  if (!strcmp (w, "null")) return 1;
+  l = parse_hex (w, &d);
+  if (l < 0) return 0;
+  *p = keep_bytes (d, l); *n = (size_t) l; free (d);
   return 1;
 }
 
@@ -665,6 +684,97 @@ static void stun_op (int n, char **w)
     if (g_block) print_hex (g_block + GUARD, g_cap); else printf ("-");
     if (!canary_ok ()) printf (" CANARY-DAMAGED");
     show_info (&msg); show_slots (); printf ("\n");
+  } else if ((!strcmp (op, "uturn") && n == 11) || (!strcmp (op, "uturnref") && n == 9)) {
+    int isref = !strcmp (op, "uturnref");
+    char **a = w + 2;     /* cap txid prev ... */
+    uint8_t *id, *user, *pass; size_t ul, pl, r; long l; unsigned long cap; char b[32];
+    const char *sprev = a[2], *suser = isref ? a[4] : a[6], *spass = isref ? a[5] : a[7], *stc = isref ? a[6] : a[8];
+    if (!have_agent || !isnum (a[0]) || !isnum (stc) || !isint (isref ? a[3] : a[5]) ||
+        (!isref && (!isnum (a[3]) || !isint (a[4])))) { puts ("bad-op"); return; }
+    cap = strtoul (a[0], NULL, 10);
+    l = parse_hex (a[1], &id);
+    if (l != 16 || cap > 70000 || (!strcmp (sprev, "1") && !have_req)) { puts ("bad-op"); if (l >= 0) free (id); return; }
+    memcpy (next_txid, id, 16); free (id);
+    if (!opt_bytes (suser, &user, &ul) || !opt_bytes (spass, &pass, &pl)) { puts ("bad-op"); return; }
+    memset (&msg, 0, sizeof msg);
+    out_new (cap);
+    if (isref)
+      r = stun_usage_turn_create_refresh (&agent, &msg, g_block + GUARD, cap, !strcmp (sprev, "1") ? &req_msg : NULL,
+          (int32_t) strtol (a[3], NULL, 10), user, ul, pass, pl, (StunUsageTurnCompatibility) strtoul (stc, NULL, 10));
+    else
+      r = stun_usage_turn_create (&agent, &msg, g_block + GUARD, cap, !strcmp (sprev, "1") ? &req_msg : NULL,
+          (StunUsageTurnRequestPorts) strtoul (a[3], NULL, 10), (int32_t) strtol (a[4], NULL, 10),
+          (int32_t) strtol (a[5], NULL, 10), user, ul, pass, pl, (StunUsageTurnCompatibility) strtoul (stc, NULL, 10));
+    g_inited = r != 0;
+    snprintf (b, sizeof b, "%zu", r);
+    g_nonl = 1; show_build (b); g_nonl = 0;
+    show_info (&msg); show_slots (); printf ("\n");
+  } else if (!strcmp (op, "uturnperm") && n == 12) {
+    uint8_t *id, *user, *pass, *realm, *nonce, *peer = NULL, *blk; size_t ul, pl, rl, nl, r; long l; unsigned long cap;
+    socklen_t plen; char b[32];
+    if (!have_agent || !isnum (w[2]) || !isnum (w[11])) { puts ("bad-op"); return; }
+    cap = strtoul (w[2], NULL, 10);
+    if (strcmp (w[8], "null")) {
+      char l128[] = "128";
+      peer = make_addr (w[8], w[9], w[10], l128, &plen);
+      if (!peer) { puts ("bad-op"); return; }
+    }
+    l = parse_hex (w[3], &id);
+    if (l != 16 || cap > 70000) { puts ("bad-op"); if (l >= 0) free (id); free (peer); return; }
+    memcpy (next_txid, id, 16); free (id);
+    if (!opt_bytes (w[4], &user, &ul) || !opt_bytes (w[5], &pass, &pl) || !opt_bytes (w[6], &realm, &rl) ||
+        !opt_bytes (w[7], &nonce, &nl)) { puts ("bad-op"); free (peer); return; }
+    blk = out_alloc_block (cap);
+    r = stun_usage_turn_create_permission (&agent, &msg, blk + GUARD, cap, user, ul, pass, pl, realm, rl, nonce, nl,
+        (struct sockaddr_storage *) peer, (StunUsageTurnCompatibility) strtoul (w[11], NULL, 10));
+    free (peer);
+    if (msg.buffer == blk + GUARD) out_commit (blk, cap); else out_free_block (blk, cap);
+    g_inited = r != 0;
+    snprintf (b, sizeof b, "%zu", r);
+    g_nonl = 1; show_build (b); g_nonl = 0;
+    show_info (&msg); show_slots (); printf ("\n");
+  } else if (!strcmp (op, "uturnproc") && n == 6) {
+    unsigned long rl, al, alt = 0; socklen_t rsl, asl, tsl = 0; uint8_t *rb, *ab, *tb = NULL; int r, havealt = strcmp (w[4], "null");
+    uint32_t bw = 0, lt = 0; int bwset, ltset;
+    StunMessage probe;
+    if (!have_req || !isnum (w[2]) || !isnum (w[3]) || (havealt && !isnum (w[4])) || !isnum (w[5])) { puts ("bad-op"); return; }
+    rl = strtoul (w[2], NULL, 10); al = strtoul (w[3], NULL, 10);
+    if (havealt) alt = strtoul (w[4], NULL, 10);
+    if (rl > 4096 || al > 4096 || alt > 4096) { puts ("bad-op"); return; }
+    rsl = (socklen_t) rl; asl = (socklen_t) al; tsl = (socklen_t) alt;
+    rb = rl ? calloc (rl, 1) : (uint8_t *) malloc (1) + 1;
+    ab = al ? calloc (al, 1) : (uint8_t *) malloc (1) + 1;
+    if (havealt) tb = alt ? calloc (alt, 1) : (uint8_t *) malloc (1) + 1;
+    /* bandwidth / lifetime are written only when the attribute is found: run twice with different
+     * initial values to see whether they were written */
+    { uint32_t bw2 = 1, lt2 = 1; socklen_t r2 = rsl, a2 = asl, t2 = tsl;
+      uint8_t *rb2 = rl ? calloc (rl, 1) : (uint8_t *) malloc (1) + 1, *ab2 = al ? calloc (al, 1) : (uint8_t *) malloc (1) + 1;
+      uint8_t *tb2 = havealt ? (alt ? calloc (alt, 1) : (uint8_t *) malloc (1) + 1) : NULL;
+      probe = req_msg;
+      stun_usage_turn_process (&probe, (struct sockaddr_storage *) rb2, &r2, (struct sockaddr_storage *) ab2, &a2,
+          (struct sockaddr_storage *) tb2, havealt ? &t2 : NULL, &bw2, &lt2, (StunUsageTurnCompatibility) strtoul (w[5], NULL, 10));
+      r = stun_usage_turn_process (&req_msg, (struct sockaddr_storage *) rb, &rsl, (struct sockaddr_storage *) ab, &asl,
+          (struct sockaddr_storage *) tb, havealt ? &tsl : NULL, &bw, &lt, (StunUsageTurnCompatibility) strtoul (w[5], NULL, 10));
+      bwset = bw == bw2; ltset = lt == lt2;
+      free (rl ? rb2 : rb2 - 1); free (al ? ab2 : ab2 - 1); if (havealt) free (alt ? tb2 : tb2 - 1);
+    }
+    printf ("ret %d rlen %u", r, (unsigned) rsl);
+    if (rl >= 2) print_sockaddr ("relay", rb);
+    printf (" alen %u", (unsigned) asl);
+    if (al >= 2) print_sockaddr ("addr", ab);
+    if (havealt) printf (" altlen %u", (unsigned) tsl); else printf (" altlen null");
+    if (havealt && alt >= 2) print_sockaddr ("alt", tb);
+    if (bwset) printf (" bw %u", bw); else printf (" bw -");
+    if (ltset) printf (" lt %u", lt); else printf (" lt -");
+    printf ("\n");
+    free (rl ? rb : rb - 1); free (al ? ab : ab - 1); if (havealt) free (alt ? tb : tb - 1);
+  } else if (!strcmp (op, "uturnrefproc") && n == 3 && isnum (w[2])) {
+    uint32_t lt = 0, lt2 = 1; int r; StunMessage probe;
+    if (!have_req) { puts ("bad-op"); return; }
+    probe = req_msg;
+    stun_usage_turn_refresh_process (&probe, &lt2, (StunUsageTurnCompatibility) strtoul (w[2], NULL, 10));
+    r = stun_usage_turn_refresh_process (&req_msg, &lt, (StunUsageTurnCompatibility) strtoul (w[2], NULL, 10));
+    if (lt == lt2) printf ("ret %d lt %u\n", r, lt); else printf ("ret %d lt -\n", r);
   } else if ((!strcmp (op, "sha1") || !strcmp (op, "md5")) && n == 3) {
     uint8_t *d, *base; long l = parse_pkt (w[2], &d, &base); uint8_t out[20];
     if (l < 0) { puts ("bad-op"); return; }
